@@ -2,9 +2,38 @@
 
 package pipeline
 
+import (
+	"sync"
+	"sync/atomic"
+)
+
 // Accessor for the C20 admission-control monitor (build tag `verif`).
 // Nothing here is used by production code.
 
 // VerifAntispamMaintenance runs one antispam maintenance round, i.e. exactly
 // what the antispammerMaintenance goroutine does on each tick.
 func (p *Pipeline) VerifAntispamMaintenance() { p.antispamer.Maintenance() }
+
+// ---- tick observer of the antispam maintenance goroutine ----
+
+var verifAntispamTicks sync.Map // *Pipeline -> *atomic.Int64
+
+func verifAntispamTickCounter(p *Pipeline) *atomic.Int64 {
+	if c, ok := verifAntispamTicks.Load(p); ok {
+		return c.(*atomic.Int64)
+	}
+	c, _ := verifAntispamTicks.LoadOrStore(p, new(atomic.Int64))
+	return c.(*atomic.Int64)
+}
+
+// verifAntispamTick is called by Pipeline.antispammerMaintenance each time it
+// wakes up from its sleep (one maintenance interval has passed for it), before
+// it does anything else.
+func verifAntispamTick(p *Pipeline) { verifAntispamTickCounter(p).Add(1) }
+
+// VerifAntispamTicks returns how many times the antispam maintenance
+// goroutine of p has woken up from its sleep so far.
+func (p *Pipeline) VerifAntispamTicks() int64 { return verifAntispamTickCounter(p).Load() }
+
+// VerifAntispamTicksForget drops the counter of p.
+func (p *Pipeline) VerifAntispamTicksForget() { verifAntispamTicks.Delete(p) }
